@@ -118,8 +118,9 @@ def case_s(draw):
         "field_boost": draw(st.sampled_from([1.0, 1.0, 2.0, 0.5])),
         "codec": codec,
         "docs": docs,
-        "delete": draw(st.lists(st.integers(0, 40), max_size=3)) if codec["kind"] == "w3" else [],
-        "segments": draw(st.sampled_from([1, 1, 2])) if codec["kind"] == "w3" else 1,
+        "delete": draw(st.one_of(st.just([]), st.just([]), st.lists(st.integers(0, 40), max_size=3))) if codec["kind"] == "w3" else [],
+        "segments": draw(st.sampled_from([1, 2, 2, 3])) if codec["kind"] == "w3" else 1,
+        "merge_after": draw(st.sampled_from([True, True, False])),
     }
 
 
@@ -190,6 +191,7 @@ def run(case, out):
         for i, d in enumerate(docs):
             bw.add_document(k=i, f=json.dumps(d["tokens"]), f2=json.dumps(tokens2(d)), _boost=d["boost"])
         reader = bw.reader()
+        merged = False
     else:
         nseg = case["segments"]
         for sidx in range(nseg):
@@ -211,9 +213,18 @@ def run(case, out):
             for i in dels:
                 w.delete_document(i)
             w.commit(merge=False)
+        merged = False
+        if case.get("merge_after") and not dels and nseg > 1 and ck["kind"] == "w3":
+            # the same content after the segments have been merged into one (postings, vectors and statistics are
+            # copied by the merge, not re-analysed)
+            w = ix.writer(codec=W3Codec(blocklimit=ck["blocklimit"], compression=ck["compression"],
+                                        inlinelimit=ck["inlinelimit"]))
+            w.commit(optimize=True)
+            merged = True
+            out.label("merged_before_reading")
         reader = ix.reader()
     deleted = set(i % len(docs) for i in case["delete"]) if ck["kind"] == "w3" else set()
-    multi_segment = case["segments"] > 1
+    multi_segment = case["segments"] > 1 and not (ck["kind"] != "memory" and merged)
     supports = SUPPORTS[case["format"]]
     blocky = False
     try:
